@@ -156,3 +156,11 @@ def run(ctx):
                       "a prefix of 7..10 - entries that had been reported durable (and are not covered by the snapshot) are lost.  A new file + fsync + rename, or front-trimming by "
                       "bookkeeping, has no such window" % ty, bad and loc(bad[0], bad[1]) or "%s:%s" % (pb.file, pb.line), bad and bad[2])
     ctx.floor("C18-c", n_purge, 2, "LogStore::purge impls in d_engine_server")
+
+
+_run_before_io_window = run
+
+
+def run(ctx):
+    _run_before_io_window(ctx)
+    io_window_rule(ctx, "C18-d")
